@@ -50,6 +50,12 @@ Definition new_hint (hint : nat) : hm :=
   if hint =? 0 then HM 0 false 0 0 [] None
   else HM 0 false 0 0 (make_buckets (hint_nb (S hint) hint 1)) None.
 
+(* Clear(): nothing to do on an empty map; otherwise every bucket of the current array is zeroed, the old
+   array and the key arena are dropped, counters and flags reset.  The map can be used again (after the
+   fix `a hashmap stays usable after Clear()`; before it the next insert sliced the nil arena). *)
+Definition clear (m : hm) : hm :=
+  if count m =? 0 then m else HM 0 false 0 0 (make_buckets (length (bkts m))) None.
+
 Definition evacuated (c : chain) : bool :=
   match c with (EvX _ _ | EvY _ _ | EvEmpty) :: _ => true | _ => false end.
 
